@@ -107,7 +107,8 @@ def pe(e, ctx=P_COND) -> str:
 
 
 def _args(args, kwargs):
-    parts = [pe(a, P_COND) for a in args] + [f"{k}={pe(v, P_COND)}" for k, v in kwargs]
+    parts = [("*" + pe(a[1], P_COND)) if a[0] == "star" else pe(a, P_COND) for a in args]
+    parts += [("**" + pe(v, P_COND)) if k == "**" else f"{k}={pe(v, P_COND)}" for k, v in kwargs]
     return ", ".join(parts)
 
 
